@@ -92,12 +92,20 @@ def arch32_lines(prop, tier, seed):
     lines = vlib.read_trace(out)
     if tier != "quick":
         return lines
-    keep, unit, k = [], -1, seed % 3
+    # ... and every unit in which a call panicked or hung
+    units, cur = [], []
     for ln in lines:
-        if '"op":"Reset"' in ln or '"op":"Cut"' in ln:
-            unit += 1
-        if unit % 3 == k or '"op":"Reset"' in ln:
-            keep.append(ln)
+        if ('"op":"Reset"' in ln or '"op":"Cut"' in ln) and cur:
+            units.append(cur)
+            cur = []
+        cur.append(ln)
+    units.append(cur)
+    keep, k = [], seed % 3
+    for i, u in enumerate(units):
+        if i % 3 == k or any('"panicked":true' in x or '"timeout":true' in x for x in u):
+            keep += u
+        elif '"op":"Reset"' in u[0]:
+            keep.append(u[0])
     return keep
 
 
@@ -135,7 +143,33 @@ def cold_start(binary, tier, seed):
     return lines
 
 
-def gen_recorder(prop, arch32=True, cold=False):
+def concuni_lines(binary, tier, seed, runs=None):
+    """callers holding different texts in non-normal forms validate and derive at the same time, in fresh processes"""
+    lines = []
+    for k in range(runs or (6 if tier == "quick" else 40)):
+        d = vlib.scratch("verif-cu-")
+        out = os.path.join(d, "cu.ndjson")
+        vlib.run_harness(binary, ["concuni", "-tier", "quick" if tier == "quick" or k % 8 else "thorough", "-seed", str(seed * 100 + k), "-out", out], timeout=900)
+        ls = vlib.read_trace(out)
+        # the unit is marked so that a failure in it is confirmed by running the scenario again
+        ls = [x.replace('"op":"Cut"', '"op":"Cut","concuni_seed":%d,"concuni_tier":"%s"' % (seed * 100 + k, "quick" if tier == "quick" or k % 8 else "thorough"), 1)
+              if '"op":"Cut"' in x else x for x in ls]
+        lines += ls
+        vlib.shutil.rmtree(d, ignore_errors=True)
+    return lines
+
+
+def batch_lines(binary, tier, seed):
+    """batch generation from one caller buffer cut into chunks (sequential, then one goroutine per chunk)"""
+    d = vlib.scratch("verif-batch-")
+    out = os.path.join(d, "batch.ndjson")
+    vlib.run_harness(binary, ["batch", "-tier", tier, "-seed", str(seed), "-out", out], timeout=900)
+    lines = vlib.read_trace(out)
+    vlib.shutil.rmtree(d, ignore_errors=True)
+    return lines
+
+
+def gen_recorder(prop, arch32=True, cold=False, concuni=False, batch=False):
     def rec(binary, tier, seed):
         d = vlib.scratch("verif-tr-")
         out = os.path.join(d, "trace.ndjson")
@@ -145,6 +179,10 @@ def gen_recorder(prop, arch32=True, cold=False):
             lines += arch32_lines(prop, tier, seed)
         if cold:
             lines += cold_start(binary, tier, seed)
+        if concuni:
+            lines += concuni_lines(binary, tier, seed)
+        if batch:
+            lines += batch_lines(binary, tier, seed)
         return lines, sum(1 for x in lines if '"op":"Reset"' in x), {}
     return rec
 
@@ -167,6 +205,28 @@ def cold_replay(prop):
     def rp(path, binary):
         unit = json.load(open(path))["unit"]
         cut = unit[0] if unit else {}
+        if "concuni_seed" in cut:
+            tried = 0
+            for batch in range(10):
+                lines = concuni_lines(binary, cut["concuni_tier"], cut["concuni_seed"] // 100 + batch, runs=6)
+                tried += 6
+                v = vlib.validate(lines, [prop], shards=6)
+                if v.infra:
+                    raise Infra("replay trace unusable: %s" % v.infra[:3])
+                mine = [b for b in v.bad if b[1] == prop]
+                if mine:
+                    return (False, "concurrent callers with texts in non-normal forms, %d fresh processes: %d failing calls" % (tried, len(mine)))
+            return (True, "concurrent callers with texts in non-normal forms, %d fresh processes, no failing call" % tried)
+        if "batch_seed" in cut:
+            for attempt in range(10):
+                lines = batch_lines(binary, cut["batch_tier"], cut["batch_seed"] + attempt)
+                v = vlib.validate(lines, [prop], shards=4)
+                if v.infra:
+                    raise Infra("replay trace unusable: %s" % v.infra[:3])
+                mine = [b for b in v.bad if b[1] == prop]
+                if mine:
+                    return (False, "batch generation from one buffer run again (%d times): %d failing calls" % (attempt + 1, len(mine)))
+            return (True, "batch generation from one buffer run again 10 times, no failing call")
         if not cut.get("cold"):
             return plain_replay(prop, path, binary)
         tried = 0
@@ -195,6 +255,7 @@ def phased_recorder(prop):
         out = os.path.join(d, "trace.ndjson")
         vlib.run_harness(binary, ["gen", "-prop", prop, "-tier", tier, "-seed", str(seed), "-out", out])
         lines = vlib.read_trace(out)
+        lines += arch32_lines(prop, tier, seed)
         out2 = os.path.join(d, "extreme.ndjson")
 
         def limit():
@@ -378,10 +439,10 @@ def is_check(e):
 
 
 RECIPES = {
-    "C01": dict(mc=[mc_codec(False)], record=gen_recorder("C01"), props=["C01"], speaks=valid_enc,
+    "C01": dict(mc=[mc_codec(False)], record=gen_recorder("C01", cold=True, batch=True), replay=cold_replay("C01"), prefix_ok=True, props=["C01"], speaks=valid_enc,
                 rule="NewMnemonicByEntropy calls with a valid size and supported language, distinct by (entropy, language); families: Latin square "
                      "(every (position,index) pair), every index at the last position, every first SHA-256 byte, 0/1 runs, single bits, random"),
-    "C02": dict(mc=[mc_codec(True)], record=gen_recorder("C02", cold=True), replay=cold_replay("C02"), prefix_ok=True, props=["C02"],
+    "C02": dict(mc=[mc_codec(True)], record=gen_recorder("C02", cold=True, batch=True), replay=cold_replay("C02"), prefix_ok=True, props=["C02"],
                 speaks=lambda e: is_check(e) and (e.get("gen") or e.get("op") == "Sweep"),
                 rule="mnemonics generated by NewMnemonicByEntropy / NewMnemonic fed back into CheckMnemonic+IsMnemonicValid, and last-word sweeps "
                      "(the 2^(11-CS) predicted words must all be accepted); distinct by (sentence, language); canonical validity is decided by TLC from the input alone"),
@@ -409,13 +470,13 @@ RECIPES = {
     "C04": dict(mc=[MC_UNICODE, mc_kdf], record=gen_recorder("C04"), props=["C04"], speaks=lambda e: e.get("op") == "ToSeed",
                 rule="MnemonicToSeed on the product of argument classes (empty, ASCII, list words in NFC/NFD/NFKC/NFKD, full-width, compatibility characters, reordering marks, "
                      "passphrases beginning with marks, lengths around the 128-byte HMAC block, 4096 bytes, invalid sentences, random Unicode 14 text); distinct by (mnemonic, passphrase)"),
-    "C10": dict(mc=[MC_UNICODE, MC_LISTS], record=gen_recorder("C10"), props=["C10"], speaks=lambda e: e.get("op") == "Check" and "group" in e,
+    "C10": dict(mc=[MC_UNICODE, MC_LISTS], record=gen_recorder("C10", concuni=True), replay=cold_replay("C10"), prefix_ok=True, props=["C10"], speaks=lambda e: e.get("op") == "Check" and "group" in e,
                 rule="groups of spellings with equal NFKD (established by TLC): every word of the seeded languages' lists inside valid sentences in asis/NFC/NFD/NFKC/NFKD/full-width "
                      "forms with U+0020/U+3000/U+00A0/U+2003/mixed separators, invalid sentences, random Unicode strings; distinct by (input, language)"),
-    "C11": dict(mc=[MC_UNICODE], record=gen_recorder("C11"), props=["C11"], speaks=lambda e: e.get("op") == "ToSeed" and "group" in e,
+    "C11": dict(mc=[MC_UNICODE], record=gen_recorder("C11", concuni=True), replay=cold_replay("C11"), prefix_ok=True, props=["C11"], speaks=lambda e: e.get("op") == "ToSeed" and "group" in e,
                 rule="groups of (mnemonic, passphrase) spellings with equal NFKD (established by TLC): covering sentences in five forms and both separators, "
                      "compatibility/combining passphrases, random Unicode; distinct by (mnemonic, passphrase)"),
-    "C05": dict(mc=[mc_codec(False)], record=gen_recorder("C05"), props=["C05"], speaks=valid_enc,
+    "C05": dict(mc=[mc_codec(False)], record=gen_recorder("C05", cold=True, batch=True), replay=cold_replay("C05"), prefix_ok=True, props=["C05"], speaks=valid_enc,
                 rule="NewMnemonicByEntropy outputs decoded by the specification's decoder; distinct by (entropy, language); includes all single-bit flips of seeded bases"),
 }
 
@@ -573,6 +634,11 @@ def record_c06(binary, tier, seed):
         steps.append({"op": "new", "n": w, "lang": seed % 10, "script": [{"k": 4, "err": ""}, {"k": need - 4, "err": ""}], "after": "data", "fill": 100 + w})
         nrun += 1
     steps.append({"op": "cut"})
+    # a working source that is slow to answer (1.2 s before the first bytes, and again mid-way)
+    for (w, sc) in ((12, [{"k": 16, "err": ""}]), (24, [{"k": 9, "err": ""}, {"k": 23, "err": ""}])):
+        steps.append({"op": "new", "n": w, "lang": seed % 10, "script": sc, "after": "data", "fill": 8, "delay_ms": 1200 if tier == "quick" else 3000})
+        nrun += 1
+    steps.append({"op": "cut"})
     # the same protocol through sources of other dynamic types: an io.ByteReader, a *bufio.Reader (fresh per call,
     # so that read-ahead does not carry over); a library that type-switches on its source must not change behaviour
     allruns = [st for st in steps if st.get("op") == "new"]
@@ -675,12 +741,12 @@ def parse_strace(path):
     return regions
 
 
-def osproc_trace(binary, n, l, seed, d):
+def osproc_trace(binary, n, l, seed, d, slow_ms=0):
     """one fresh process on the default source under strace -> (event lines, number of calls explained by getrandom)"""
     tr, st = os.path.join(d, "t.ndjson"), os.path.join(d, "st.txt")
     r = subprocess.run(["timeout", "120", "strace", "-f", "-e", "trace=getrandom,write", "-xx", "-s", "256", "-o", st,
                         binary, "osproc", "-n", str(n), "-lang", str(l), "-seed", str(seed), "-out", tr],
-                       capture_output=True, text=True, env=dict(os.environ, VERIF_DATA=os.path.join(vlib.SPEC, "data")))
+                       capture_output=True, text=True, env=dict(os.environ, VERIF_DATA=os.path.join(vlib.SPEC, "data"), VERIF_SLOW_MS=str(slow_ms)))
     if r.returncode != 0:
         raise Infra("osproc under strace failed: " + r.stderr[-1000:])
     regions = parse_strace(st)
@@ -718,7 +784,11 @@ def record_c07(binary, tier, seed):
     lines, nproc, observed = [], 0, 0
     for rep in range(reps):
         for (n, l) in combos:
-            ls, ob = osproc_trace(binary, n, l, seed * 1000 + rep, d)
+            # two processes per run also meet a working source that takes 1.2 s (thorough: 0.3 .. 6 s) to answer
+            slow = 0
+            if (n, l) in (combos[(seed * 7) % len(combos)], combos[(seed * 7 + 23) % len(combos)]):
+                slow = 1200 if tier == "quick" else [300, 1200, 3000, 6000][rep % 4]
+            ls, ob = osproc_trace(binary, n, l, seed * 1000 + rep, d, slow_ms=slow)
             lines += ls
             observed += ob
             nproc += 1
@@ -756,7 +826,7 @@ def replay_c07(path, binary):
     if call is None:
         raise Infra("C07 replay file has no NewMnemonic call")
     d = vlib.scratch("verif-os-")
-    lines, ob = osproc_trace(binary, call["n"]["v"], call["lang"], 4242, d)
+    lines, ob = osproc_trace(binary, call["n"]["v"], call["lang"], 4242, d, slow_ms=1200)
     v = vlib.validate(lines, ["C07"], shards=1)
     mine = [b for b in v.bad if b[1] == "C07"]
     return (len(mine) == 0, "re-ran a fresh process under strace: %d events, %d failing" % (len(lines), len(mine)))
@@ -931,11 +1001,12 @@ def record_c13(binary, tier, seed):
         vlib.run_harness(binary, ["prog", "-arg", prog, "-seed", str(seed), "-out", out],
                          env_extra=({"GOMAXPROCS": str([1, 2, 4][i % 3])} if i % 4 else None))
         lines += vlib.read_trace(out)
+    lines += batch_lines(binary, tier, seed)       # chunks of one caller buffer: no call writes outside (or inside) its slice
     return lines, len(programs), {"fresh_processes": len(programs), "graph_edges_covered": len(edges), "ordered_first_use_pairs": npair,
                                   "exhaustive_edge_cover": True}
 
 
-RECIPES["C13"] = dict(mc=[mc_history, mc_drive_history], record=record_c13, props=["C13", "DRIFT"],
+RECIPES["C13"] = dict(mc=[mc_history, mc_drive_history], record=record_c13, replay=cold_replay("C13"), prefix_ok=True, props=["C13", "DRIFT"],
                       speaks=lambda e: e.get("op") in ("ByEntropy", "Check", "ToSeed", "String", "NewMnemonic", "Buf", "Recheck"),
                       rule="call histories generated from Drive_History's state graph (every edge covered; every ordered pair of first-used languages; long random walks), each in a fresh "
                            "process; every return is validated natively and against the first result recorded for the same arguments in the same process; caller buffers and "
@@ -1107,6 +1178,21 @@ def record_c12(binary, tier, seed):
     ev, n = race_event(text)
     lines.append(ev)
     nraces += n
+    # callers holding different texts in non-normal forms, validating and deriving at the same time; batch generation
+    # from one caller buffer cut into chunks (race build)
+    for k in range(4 if tier == "quick" else 24):
+        cd = vlib.scratch("verif-conc-")
+        out3, rl3 = os.path.join(cd, "cu.ndjson"), os.path.join(cd, "race")
+        env = dict(os.environ, VERIF_DATA=os.path.join(vlib.SPEC, "data"), GORACE="log_path=%s atexit_sleep_ms=0 halt_on_error=0" % rl3)
+        r = subprocess.run(["timeout", "900", binary, "concuni" if k % 4 else "batch", "-tier", "quick", "-seed", str(seed * 100 + k), "-out", out3], capture_output=True, text=True, env=env)
+        if r.returncode not in (0, 66):
+            raise Infra("concuni harness failed rc=%d: %s" % (r.returncode, r.stderr[-1500:]))
+        text = "".join(open(os.path.join(cd, f), errors="replace").read() for f in sorted(os.listdir(cd)) if f.startswith("race"))
+        lines += vlib.read_trace(out3)
+        ev, n = race_event(text)
+        lines.append(ev)
+        nraces += n
+        vlib.shutil.rmtree(cd, ignore_errors=True)
     return lines, len(plan), {"fresh_race_build_processes": len(plan), "race_reports": nraces,
                               "programs_available": {"firstuse": len(fu), "allops": len(ao)}}
 
@@ -1173,7 +1259,9 @@ def _letters():
         "marks": [chr(c) for c in (0x300, 0x301, 0x302, 0x303, 0x308, 0x30C, 0x327, 0x323, 0x3099, 0x309A, 0x94D, 0x93E)],
         "hiragana": [chr(c) for c in range(0x3041, 0x3097)],
         "hangul": [chr(c) for c in range(0xAC00, 0xD7A4, 37)] + [chr(c) for c in list(range(0x1100, 0x1113)) + list(range(0x1161, 0x1176)) + list(range(0x11A8, 0x11C3))],
-        "han": [chr(c) for c in range(0x4E00, 0x9FA6, 11)],
+        # Han: the basic block, extension A, and the ideographs beyond the BMP (extensions B..F, compatibility supplement)
+        "han": [chr(c) for c in range(0x4E00, 0x9FA6, 11)] + [chr(c) for c in range(0x3400, 0x4DB6, 211)]
+               + [chr(c) for c in list(range(0x20000, 0x2A6D7, 1499)) + [0x20000, 0x20BB7, 0x2A6D6, 0x2A700, 0x2B820, 0x2CEB0, 0x2F800, 0x2F9FF, 0x2FA1D]],
         "other": ["ǅ", "ʰ", "ǈ", "ß", "ı", "İ", "ĳ", "ſ", "Ω", "я", "ж", "ﬁ", "ａ"],
     }
     for k, v in pools.items():
